@@ -17,7 +17,7 @@ func runC12(e *Env) error {
 	e.CaseType = "gcase"
 	e.ShardBytes = 120000
 	e.ShardSize = 150
-	e.Rule = "per topic: honest messages over the slots/committees/subnets of a window on chains built with the real transition (real BLS signatures), plus every single-condition corruption and the timing/availability failures; world gap: blocks whose parent lies 2 and 3 epochs back (main chain and side branches, across the altair fork) and sync messages/contributions for a slot in a later sync-committee period than the signed head block where the committee rotated (every seat: new, kept, held only before), the sync committee given to the model being the one of the state at the message's slot; world forks: every topic in the last slot before and the first slot after a fork-version change following altair (bellatrix, capella), with each signature also made under the adjacent fork's domain; all cases of a world run against the same long-lived contexts (one backend), the model's facts come from contexts computed from the states alone, every call is checked not to change the chain view, and stateful sequences (partial aggregate / contribution / block, then the other members' messages, then the first message again) are arranged on one view; non-trivial = every case (each runs a validator against a chain view); distinct by (topic, corruption, verdict, ordinal)"
+	e.Rule = "per topic: honest messages over the slots/committees/subnets of a window on chains built with the real transition (real BLS signatures), plus every single-condition corruption and the timing/availability failures; world gap: blocks whose parent lies 2 and 3 epochs back (main chain and side branches, across the altair fork) and sync messages/contributions for a slot in a later sync-committee period than the signed head block where the committee rotated (every seat: new, kept, held only before), the sync committee given to the model being the one of the state at the message's slot; world forks: every topic in the last slot before and the first slot after a fork-version change following altair (bellatrix, capella), with each signature also made under the adjacent fork's domain; world subnets: epochs of 32 slots with 3 (thorough also 5) committees per slot, honest attestations and the neighbouring wrong subnets for every committee of the slots around the point where committees_per_slot*slots_since_epoch_start+index passes 64; all cases of a world run against the same long-lived contexts (one backend), the model's facts come from contexts computed from the states alone, every call is checked not to change the chain view, and stateful sequences (partial aggregate / contribution / block, then the other members' messages, then the first message again) are arranged on one view; non-trivial = every case (each runs a validator against a chain view); distinct by (topic, corruption, verdict, ordinal)"
 	g := &Gen{E: e, Count: map[string]int{}, Salt: e.Rng.Intn(1 << 20)}
 	c := NewCrypto()
 	lap := func(what string) {
@@ -156,6 +156,26 @@ func runC12(e *Env) error {
 	g.genSyncSequences(fk, []HeadAt{{fk.BySlot[23], 24}, {fk.BySlot[40], 40}})
 	g.genBlockSequences(fk, []*Node{fk.BySlot[24], fk.BySlot[40]})
 	lap("world forks")
+	// world "subnets": epochs of 32 slots with 3 committees per slot (384 validators): the committees of slot 21 sit on
+	// subnets 63, 64 -> 0, 65 -> 1; a short chain (one epoch and two slots)
+	{
+		sw := NewWorld(WorldKnobs{Name: "subnets", Validators: 384, TargetCommittee: 4, SyncCommittee: 32, AltairEpoch: 2, ShardCommittee: 1, MaxCommitteeSize: 16, SlotsPerEpoch: 32}, c)
+		ss := buildSparseChain(sw, 1, 20, 21, 22, 31, 32, 33)
+		lap("chain subnets")
+		if err := g.genSubnetWrap(ss, []common.Slot{1, 19, 20, 21, 22, 23, 31, 32, 33}); err != nil {
+			return err
+		}
+		lap("world subnets")
+	}
+	if !e.Quick() {
+		// 5 committees per slot (640 validators, MAX_COMMITTEES_PER_SLOT 5): slot 12 sits on subnets 60..63, 64 -> 0; slot 25 on 61..63, 0, 1
+		sw5 := NewWorld(WorldKnobs{Name: "subnets5", Validators: 640, TargetCommittee: 4, SyncCommittee: 32, AltairEpoch: 2, ShardCommittee: 1, MaxCommitteeSize: 16, SlotsPerEpoch: 32, MaxCommittees: 5}, c)
+		s5 := buildSparseChain(sw5, 1, 12, 13, 25, 26, 31)
+		if err := g.genSubnetWrap(s5, []common.Slot{11, 12, 13, 24, 25, 26, 31}); err != nil {
+			return err
+		}
+		lap("world subnets5")
+	}
 	if !e.Quick() {
 		// world "mid": 128 validators, four committees of four per slot, altair from epoch 1; every topic again
 		mid := NewWorld(WorldKnobs{Name: "mid", Validators: 128, TargetCommittee: 4, SyncCommittee: 32, AltairEpoch: 1, ShardCommittee: 2, MaxCommitteeSize: 16}, c)
